@@ -231,6 +231,8 @@ pub struct Replica {
     pub quiescent: Option<ObsFull>,
     /// (uuid, revision) -> (value, parent) as first seen
     pub rev_seen: BTreeMap<(String, String), (String, Option<String>)>,
+    /// the document this replica submitted last through update()
+    pub last_doc: Option<Value>,
 }
 
 pub type Counters = BTreeMap<&'static str, u64>;
@@ -266,6 +268,7 @@ impl World {
                 heads_hist: vec![],
                 quiescent: None,
                 rev_seen: BTreeMap::new(),
+                last_doc: None,
             });
         }
         Ok(World {
